@@ -169,6 +169,10 @@ pub struct Node {
     pub spurious: bool,
     /// enabled threads whose pending operation is a compare_exchange_weak
     pub weak_cas: Vec<usize>,
+    /// threads waiting under a stutter rule at this node, with the key of the loop they are in
+    pub stutter: Vec<(usize, String)>,
+    /// the chosen thread was waiting under a stutter rule and was told to spin on alone until its loop gives up (a deviation)
+    pub give_up: bool,
 }
 
 #[derive(Clone, Debug, PartialEq)]
@@ -178,6 +182,8 @@ pub enum Abort {
     Horizon,
     ReplayDivergence(String),
     BodyPanic(String),
+    /// a thread told to spin on alone did not leave its loop within GIVE_UP_LIMIT steps: the loop does not give up
+    UnboundedSpin(String),
 }
 
 #[derive(Default)]
@@ -210,6 +216,10 @@ struct ExecState {
     last_failed_cas: Vec<Option<(usize, u64, u64)>>,
     /// consecutive stutter steps taken because nothing else could run
     forced_stutter: usize,
+    /// a thread spinning on alone after a give-up deviation: (thread, loop key, steps taken so far)
+    alone: Option<(usize, String, usize)>,
+    /// steps taken by threads spinning on alone (not counted against the step horizon)
+    alone_total: usize,
     /// per thread: the loads (cell, value read, peek) executed since its last operation that was not a load
     load_log: Vec<Vec<(usize, u64, fn(usize) -> u64)>>,
     calls: Vec<Call>,
@@ -236,6 +246,15 @@ struct Aborted;
 /// An execution in which no thread reaches a scheduling point for this long is a machinery failure (exit 2).
 const HANG_LIMIT_S: u64 = 15;
 
+/// A thread told to spin on alone must leave its loop within this many steps, else the loop counts as unbounded.
+const GIVE_UP_LIMIT: usize = 20_000;
+
+/// Give-up deviations allowed per execution (a waiting thread spins on alone until its loop gives up).
+pub static GIVE_UP_BUDGET: std::sync::atomic::AtomicUsize = std::sync::atomic::AtomicUsize::new(1);
+
+/// Loops (operation kind @ call) found not to give up within GIVE_UP_LIMIT steps: not offered the deviation again.
+pub static UNBOUNDED_LOOPS: Mutex<Vec<String>> = Mutex::new(Vec::new());
+
 impl Exec {
     fn new(n: usize, prefix: Vec<usize>, sleep_after_prefix: Vec<usize>, use_sleep: bool, max_steps: usize) -> Arc<Exec> {
         Arc::new(Exec {
@@ -253,6 +272,8 @@ impl Exec {
                 locks: HashMap::new(),
                 last_failed_cas: vec![None; n],
                 forced_stutter: 0,
+                alone: None,
+                alone_total: 0,
                 load_log: vec![vec![]; n],
                 calls: vec![],
                 open_call: vec![None; n],
@@ -313,6 +334,7 @@ impl Exec {
         }
         let mut pend: Vec<Option<Pending>> = vec![None; n];
         let mut enabled = vec![];
+        let mut stutter: Vec<(usize, String)> = vec![];
         for t in 0..n {
             if let TStatus::Parked(p) = &st.status[t] {
                 let mut p2 = *p;
@@ -337,6 +359,7 @@ impl Exec {
                 if Self::enabled(st, t, p) {
                     enabled.push(t);
                 } else if matches!(p.kind, PKind::Sync(OpKind::CmpXchg { .. } | OpKind::Load)) {
+                    stutter.push((t, format!("{:?}@{}", p.kind, st.in_call[t].clone().unwrap_or_default())));
                     // waiting oracle: remember what the others were doing while t spins
                     let obs = (t, st.in_call[t].clone().unwrap_or_default(), st.in_call.clone());
                     if st.spin_obs.len() < 64 {
@@ -345,13 +368,33 @@ impl Exec {
                 }
             }
         }
+        // a thread spinning on alone (give-up deviation) keeps running, and only it, until it leaves its loop
+        if let Some((t, key, steps)) = st.alone.clone() {
+            if stutter.iter().any(|(u, _)| *u == t) {
+                if steps >= GIVE_UP_LIMIT {
+                    st.abort = Some(Abort::UnboundedSpin(key));
+                    self.wake_all(st);
+                    return;
+                }
+                // an automatic step: no node, no alternatives, no position in the schedule
+                st.alone = Some((t, key, steps + 1));
+                st.alone_total += 1;
+                st.directive[t] = Directive::Proceed;
+                st.current = Some(t);
+                st.prev = Some(t);
+                self.cvs[t].notify_one();
+                return;
+            } else {
+                st.alone = None;
+            }
+        }
         if enabled.is_empty() && st.finished < n {
             // Nothing can run but a thread waits under the stutter rule: the rule assumes an unbounded retry loop, which
             // a bounded one (try three times, then give up) is not. Let the lowest such thread take its failing step,
             // without branching; a loop that really never ends reaches the step horizon instead.
             if let Some(t) = (0..n).find(|&t| matches!(pend[t], Some(p) if matches!(p.kind, PKind::Sync(OpKind::CmpXchg { .. } | OpKind::Load)))) {
                 st.forced_stutter += 1;
-                if st.forced_stutter <= 256 {
+                if st.forced_stutter <= GIVE_UP_LIMIT {
                     enabled.push(t);
                 }
             }
@@ -370,7 +413,7 @@ impl Exec {
             self.wake_all(st);
             return;
         }
-        if st.steps.len() >= st.max_steps {
+        if st.steps.len() - st.alone_total.min(st.steps.len()) >= st.max_steps {
             st.abort = Some(Abort::Horizon);
             self.wake_all(st);
             return;
@@ -380,9 +423,25 @@ impl Exec {
             st.sleep = std::mem::take(&mut st.sleep_after_prefix);
         }
         let mut spurious = false;
+        let mut give_up = false;
         let chosen = if pos < st.prefix.len() {
             let mut c = st.prefix[pos];
-            if c >= n {
+            if c >= 2 * n {
+                // give-up deviation: this waiting thread spins on alone
+                c -= 2 * n;
+                match stutter.iter().find(|(u, _)| *u == c) {
+                    Some((_, key)) => {
+                        st.alone = Some((c, key.clone(), 1));
+                        give_up = true;
+                        enabled.push(c);
+                    }
+                    None => {
+                        st.abort = Some(Abort::ReplayDivergence(format!("node {}: thread {} is not waiting in a loop", pos, c)));
+                        self.wake_all(st);
+                        return;
+                    }
+                }
+            } else if c >= n {
                 c -= n;
                 spurious = true;
             }
@@ -411,7 +470,11 @@ impl Exec {
             return;
         }
         st.directive[chosen] = if spurious { Directive::SpuriousFail } else { Directive::Proceed };
-        st.nodes.push(Node { enabled: enabled.clone(), pending: pend.clone(), chosen, prev: st.prev, sleep: st.sleep.clone(), spurious, weak_cas });
+        if give_up {
+            // recorded as a node without scheduling alternatives
+            enabled = vec![chosen];
+        }
+        st.nodes.push(Node { enabled: enabled.clone(), pending: pend.clone(), chosen, prev: st.prev, sleep: st.sleep.clone(), spurious, weak_cas: if give_up { vec![] } else { weak_cas }, stutter: if give_up { vec![] } else { stutter }, give_up });
         // sleep-set propagation along the executed transition
         if st.use_sleep && pos >= st.prefix.len() {
             let cp = pend[chosen].unwrap();
@@ -603,7 +666,7 @@ impl Execution {
     /// Choice list (replay artefact): thread id, or `threads + id` for "this thread, and its weak CAS fails spuriously".
     pub fn choices(&self) -> Vec<usize> {
         let n = self.nodes.first().map(|x| x.pending.len()).unwrap_or(0);
-        self.nodes.iter().map(|x| if x.spurious { n + x.chosen } else { x.chosen }).collect()
+        self.nodes.iter().map(|x| if x.give_up { 2 * n + x.chosen } else if x.spurious { n + x.chosen } else { x.chosen }).collect()
     }
     pub fn deviations(&self) -> usize {
         self.nodes.iter().filter(|x| x.spurious).count()
@@ -841,6 +904,18 @@ pub struct ExploreResult {
     pub sample: Option<Value>,
 }
 
+/// Keep one violation per signature (the one with the fewest preemptions); `doc` is only built when it is kept.
+fn record_violation(list: &mut Vec<(String, String, Value)>, sig: String, what: String, preemptions: u64, doc: impl FnOnce() -> Value) {
+    match list.iter_mut().find(|v| v.0 == sig) {
+        Some(e) => {
+            if preemptions < e.2["preemptions"].as_u64().unwrap_or(0) {
+                *e = (sig, what, doc());
+            }
+        }
+        None => list.push((sig, what, doc())),
+    }
+}
+
 struct Work {
     prefix: Vec<usize>,
     sleep: Vec<usize>,
@@ -953,15 +1028,22 @@ pub fn explore<D: Driver + 'static>(driver: D, mode: Mode, max_execs: u64, worke
                         }
                         Some(Abort::Deadlock(m)) => {
                             local.executions += 1;
-                            local.violations.push((format!("deadlock:{}", driver.name()), format!("{}: deadlock: {}", driver.name(), m), replay_doc(&x, m)));
+                            record_violation(&mut local.violations, format!("deadlock:{}", driver.name()), format!("{}: deadlock: {}", driver.name(), m), x.preemptions() as u64, || replay_doc(&x, m));
                         }
                         Some(Abort::Horizon) => {
                             local.executions += 1;
-                            local.violations.push((format!("no-termination:{}", driver.name()), format!("{}: execution exceeded the step horizon (livelock)", driver.name()), replay_doc(&x, "horizon")));
+                            record_violation(&mut local.violations, format!("no-termination:{}", driver.name()), format!("{}: execution exceeded the step horizon (livelock)", driver.name()), x.preemptions() as u64, || replay_doc(&x, "horizon"));
+                        }
+                        Some(Abort::UnboundedSpin(key)) => {
+                            local.sleep_blocked += 1;
+                            let mut g = UNBOUNDED_LOOPS.lock().unwrap();
+                            if !g.contains(key) {
+                                g.push(key.clone());
+                            }
                         }
                         Some(Abort::BodyPanic(m)) => {
                             local.executions += 1;
-                            local.violations.push((format!("panic:{}", driver.name()), format!("{}: thread body panicked: {}", driver.name(), m), replay_doc(&x, m)));
+                            record_violation(&mut local.violations, format!("panic:{}", driver.name()), format!("{}: thread body panicked: {}", driver.name(), m), x.preemptions() as u64, || replay_doc(&x, m));
                         }
                         None => {
                             local.executions += 1;
@@ -973,6 +1055,9 @@ pub fn explore<D: Driver + 'static>(driver: D, mode: Mode, max_execs: u64, worke
                                     }
                                     local.outcomes.insert(class);
                                 }
+                                Err((sig, _)) if local.violations.iter().any(|v| v.0 == sig && v.2["preemptions"].as_u64().unwrap_or(0) <= x.preemptions() as u64) => {
+                                    // a violation of this kind with no more preemptions is already recorded
+                                }
                                 Err((sig, what)) => {
                                     // determinism: the same schedule must fail the same way again
                                     let (x2, sh2) = run_one(&driver, &pool, &x.choices(), &[], false, 4000);
@@ -981,7 +1066,7 @@ pub fn explore<D: Driver + 'static>(driver: D, mode: Mode, max_execs: u64, worke
                                     if again.as_deref() != Some(sig.as_str()) {
                                         local.machinery_error = Some(format!("replay of a failing schedule diverged in {} (first: {}, second: {:?} / abort {:?})", driver.name(), sig, again, x2.abort));
                                     }
-                                    local.violations.push((sig, format!("{}: {}", driver.name(), what.clone()), replay_doc(&x, &what)));
+                                    record_violation(&mut local.violations, sig, format!("{}: {}", driver.name(), what.clone()), x.preemptions() as u64, || replay_doc(&x, &what));
                                 }
                             }
                         }
@@ -1043,6 +1128,25 @@ pub fn explore<D: Driver + 'static>(driver: D, mode: Mode, max_execs: u64, worke
                                     }
                                     let mut p = choices[..i].to_vec();
                                     p.push(nthreads + t);
+                                    children.push(Work { prefix: p, sleep: vec![], preemptions: cost });
+                                }
+                            }
+                            // deviation: a thread waiting in a loop spins on alone until the loop gives up (no reduction below it)
+                            if i >= work.prefix.len() && !node.stutter.is_empty() && x.nodes[..i].iter().filter(|m| m.give_up).count() < GIVE_UP_BUDGET.load(MemOrd::Relaxed) {
+                                let nthreads = node.pending.len();
+                                let known: Vec<String> = UNBOUNDED_LOOPS.lock().unwrap().clone();
+                                for (t, key) in &node.stutter {
+                                    if known.contains(key) {
+                                        continue;
+                                    }
+                                    let cost = pre + if is_preempt(*t) { 1 } else { 0 };
+                                    if let Mode::B(bound) = mode {
+                                        if cost > bound {
+                                            continue;
+                                        }
+                                    }
+                                    let mut p = choices[..i].to_vec();
+                                    p.push(2 * nthreads + *t);
                                     children.push(Work { prefix: p, sleep: vec![], preemptions: cost });
                                 }
                             }
